@@ -250,6 +250,7 @@ func runDCluster(c DCase, o *pbt.Obs) *pbt.Failure {
 	}
 	var m dModel
 	acked, judgedReads, afterRestartAll, catchups := 0, 0, 0, 0
+	insertOnly := true // no update or removal was attempted so far
 	ackedAtKill, compactedBehind := -1, false // a member is down since `ackedAtKill` acknowledged writes; a partition log was compacted after further ones
 	restartedAll := false
 	pickVia := func(v int) int {
@@ -371,7 +372,11 @@ func runDCluster(c DCase, o *pbt.Obs) *pbt.Failure {
 					}
 					got[it.Id] = true
 				}
-				if len(got) != len(want) {
+				if len(want) > 0 && len(got) == 0 {
+					return pbt.Failf("C03:search-empty-on-non-empty-dataset", "%s: a search (k=64) through member %d returns nothing although %d items are live; history: %s", where, i, len(want), c.String())
+				}
+				// (completeness is what C07 states for insert-only collections; after removals and updates a search may miss a live item)
+				if insertOnly && len(got) != len(want) {
 					var missing []int
 					for id, k := range want {
 						if !got[id] {
@@ -443,6 +448,9 @@ func runDCluster(c DCase, o *pbt.Obs) *pbt.Failure {
 		where := fmt.Sprintf("step %d %s", si, dNames[s.K])
 		ver := si + 1
 		cl.Wire()
+		if s.K == DUpdate || s.K == DRemove || s.K == DBatchRemove || (s.K == DKillDuring && m.st[s.Key].present) {
+			insertOnly = false
+		}
 		switch s.K {
 		case DInsert, DUpdate, DRemove:
 			via := pickVia(s.Via)
@@ -731,7 +739,7 @@ func runDCluster(c DCase, o *pbt.Obs) *pbt.Failure {
 func TestAckedWritesOnCluster(t *testing.T) {
 	pbt.Run(t, pbt.Prop[DCase]{
 		ID: "C03", Name: "TestAckedWritesOnCluster",
-		Rule:    "rapid-generated histories on 1-3 simulated nodes wired like server.go (package ctl: real zero groups, shared group, NodesManager, allocator, DatasetManager, partition raft groups loaded by the allocator): a dataset with 1-3 partitions and replication factor 1-3 is created through the DatasetManager API; single and batch writes over 10 keys enter through the Dataset API of any live member (proxied through in-memory DataManager clients); members are killed between two writes or a generated number of ticks into a write, and started again over their stores, one at a time (the others keep writing) or all at once; partition groups snapshot and compact; oracle: a reference map of the writes that ended with a verdict (acknowledged, or refused as existing/not found - a refusal must agree with the map); whenever all members are up and every replica has applied its leader's commit index, every hosting member's index holds exactly the map's value for every key without an abandoned write, and Len and a k=64 search through every member return exactly the live keys; non-trivial = >=3 acknowledged writes, >=1 judged read and a member restart; distinct = distinct case JSON",
+		Rule:    "rapid-generated histories on 1-3 simulated nodes wired like server.go (package ctl: real zero groups, shared group, NodesManager, allocator, DatasetManager, partition raft groups loaded by the allocator): a dataset with 1-3 partitions and replication factor 1-3 is created through the DatasetManager API; single and batch writes over 10 keys enter through the Dataset API of any live member (proxied through in-memory DataManager clients); members are killed between two writes or a generated number of ticks into a write, and started again over their stores, one at a time (the others keep writing) or all at once; partition groups snapshot and compact; oracle: a reference map of the writes that ended with a verdict (acknowledged, or refused as existing/not found - a refusal must agree with the map); whenever all members are up and every replica has applied its leader's commit index, every hosting member's index holds exactly the map's value for every key without an abandoned write, Len through every member is the number of live keys, and a k=64 search through every member returns live keys only, none twice, at least one if any is live, and all of them while the history is insert-only; non-trivial = >=3 acknowledged writes, >=1 judged read and a member restart; distinct = distinct case JSON",
 		Gen:     genDCase,
 		Check:   checkDCluster,
 		Journal: true,
